@@ -984,7 +984,7 @@ class Mutations:
                 np.insert(new_sigma_inv, to_add, 0, 0), to_add, 0, 1
             )
             for i in to_add:
-                new_sigma_inv[i, i] = individual.lamb
+                new_sigma_inv[i, i] = 1 / individual.lamb
 
         individual.exp_layer = exp_layer
         individual.sigma_inv = torch.from_numpy(new_sigma_inv).to(
